@@ -212,14 +212,17 @@ class BodyMixin:
                 dct = forms
             key = item.name
 
-            if key in post:
-                el = post[key]
-                if key not in listified:
-                    el = post[key] = dct[key] = [el]
-                    listified.add(key)
-                el.append(it)
-            else:
-                post[key] = dct[key] = it
+            # a name may be repeated as text and as upload: keep forms and files apart
+            for target in (post, dct):
+                if key in target:
+                    el = target[key]
+                    mark = (id(target), key)
+                    if mark not in listified:
+                        el = target[key] = [el]
+                        listified.add(mark)
+                    el.append(it)
+                else:
+                    target[key] = it
         return post
 
     @cache_in('environ[ ombott.request.forms ]', read_only=True)
